@@ -41,7 +41,19 @@ var loadPatterns = []string{".", "./fix/...", "./session/...", "./storages/...",
 
 func setup(repo string) *Prog {
 	p := loadProg(repo, loadPatterns)
-	p.CS = LoadContracts(repo, modPath)
+	lock := os.Getenv("GOVC_CONTRACT_LOCK")
+	if lock == "" {
+		if exe, err := os.Executable(); err == nil {
+			lock = filepath.Join(filepath.Dir(filepath.Dir(exe)), "contracts")
+		}
+	}
+	if lock == "none" {
+		lock = ""
+	}
+	p.CS = LoadContracts(repo, modPath, lock)
+	for _, n := range p.CS.LockNotes {
+		fmt.Fprintln(os.Stderr, "govc: "+n)
+	}
 	return p
 }
 
@@ -246,6 +258,7 @@ type Coverage struct {
 	Failed       []Sample          `json:"failed,omitempty"`
 	VacuousGroups []string         `json:"vacuous_groups,omitempty"`
 	Contracts    map[string]string `json:"contract_files_sha256"`
+	ContractLock string            `json:"contract_lock"`
 }
 
 type Report struct {
@@ -281,6 +294,14 @@ func buildReport(p *Prog, rr *RunResult, obls []*Obligation, prop, tier string, 
 	cov.ByKind = map[string]int{}
 	cov.Vacuity = map[string]int{}
 	cov.Contracts = p.CS.Sha
+	switch {
+	case p.CS.Locked == 0:
+		cov.ContractLock = "no locked copies found; the contract files of the repository were used as they are"
+	case len(p.CS.LockNotes) == 0:
+		cov.ContractLock = fmt.Sprintf("%d contract files, each identical to its locked copy under /verif/contracts", p.CS.Locked)
+	default:
+		cov.ContractLock = strings.Join(p.CS.LockNotes, "; ")
+	}
 	cov.CheckerCmd = fmt.Sprintf("/verif/bin/govc check -prop %s -tier %s (VC generation over go/ssa of %s; z3 4.8.12, z3 5.1.0, cvc5 1.0.3 raced per obligation)", prop, tier, repo)
 	cov.Functions = rr.Functions
 	cov.Uncontracted = rr.Notes
